@@ -408,3 +408,58 @@ def canon_expr(fnode, expr, depth=3):
                     return sub
             return node
     return T(depth).visit(_copy.deepcopy(expr))
+
+
+def reaching_defs(cfg, name):
+    """May-reaching definitions of a local: node id -> set of defining
+    value expressions (ast nodes), 'param' for the value the function was
+    entered with ('unbound' when the name is not a parameter), or 'other' for
+    a binding that is not a plain assignment
+    (loop target, with-as, augmented assignment, tuple unpacking)."""
+    gen = {}
+    for n in cfg.nodes:
+        if n.kind == 'stmt' and isinstance(n.ast, (ast.Assign,
+                                                   ast.AnnAssign)):
+            tg = n.ast.targets if isinstance(n.ast, ast.Assign) \
+                else [n.ast.target]
+            for t in tg:
+                if isinstance(t, ast.Name) and t.id == name:
+                    gen[n.id] = n.ast.value if n.ast.value is not None \
+                        else 'other'
+                elif any(isinstance(x, ast.Name) and x.id == name and
+                         isinstance(x.ctx, ast.Store) for x in ast.walk(t)):
+                    gen[n.id] = 'other'
+        elif n.kind == 'stmt' and isinstance(n.ast, ast.AugAssign) and \
+                isinstance(n.ast.target, ast.Name) and \
+                n.ast.target.id == name:
+            gen[n.id] = 'other'
+        elif n.kind in ('for', 'with'):
+            for e in cfg.exprs_of(n):
+                if any(isinstance(x, ast.Name) and x.id == name and
+                       isinstance(x.ctx, ast.Store) for x in ast.walk(e)):
+                    gen[n.id] = 'other'
+    a = cfg.fnode.args
+    params = {x.arg for x in a.posonlyargs + a.args + a.kwonlyargs}
+    params |= {x.arg for x in (a.vararg, a.kwarg) if x is not None}
+    start = 'param' if name in params else 'unbound'
+    IN = {n.id: set() for n in cfg.nodes}
+    OUT = {n.id: set() for n in cfg.nodes}
+    OUT[cfg.entry.id] = {start}
+    work = list(cfg.nodes)
+    while work:
+        n = work.pop()
+        i = set()
+        for p, k in n.pred:
+            i |= OUT[p.id]
+            if k == 'exc':
+                # the statement may have raised before it assigned
+                i |= IN[p.id]
+        if n is cfg.entry:
+            i = {start}
+        changed = i != IN[n.id]
+        IN[n.id] = i
+        o = {gen[n.id]} if n.id in gen else i
+        if o != OUT[n.id] or changed:
+            OUT[n.id] = o
+            work.extend(s for s, _k in n.succ)
+    return IN
